@@ -9,6 +9,13 @@ const firstHighSurrogate = 0xD800
 const firstLowSurrogate = 0xDC00
 const lastLowSurrogate = 0xDFFF
 
+// An invalid byte decodes as U+FFFD with a width of 1. It must not be copied
+// to the output as it is (the output would not be valid UTF-8). It is written
+// as "\uFFFD" instead, the same as when "asciiOnly" is true.
+func isInvalidByte(c rune, width int) bool {
+	return c == utf8.RuneError && width <= 1
+}
+
 func canPrintWithoutEscape(c rune, asciiOnly bool) bool {
 	if c <= lastASCII {
 		return c >= firstASCII && c != '\\' && c != '"'
@@ -63,12 +70,12 @@ func internalQuote(text string, asciiOnly bool, quoteChar byte) []byte {
 		c, width := DecodeWTF8Rune(text[i:])
 
 		// Fast path: a run of characters that don't need escaping
-		if canPrintWithoutEscape(c, asciiOnly) {
+		if canPrintWithoutEscape(c, asciiOnly) && !isInvalidByte(c, width) {
 			start := i
 			i += width
 			for i < n {
 				c, width = DecodeWTF8Rune(text[i:])
-				if !canPrintWithoutEscape(c, asciiOnly) {
+				if !canPrintWithoutEscape(c, asciiOnly) || isInvalidByte(c, width) {
 					break
 				}
 				i += width
